@@ -53,6 +53,22 @@ Round 4 additions (++):
 ++ big      dense panels (probabilities 2^-8 .. 2^-10, 1/2 every 25-64 markers);
    the deterministic Spec of a scripted / embv / protocol case applies only when the draws were requested in the modelled
    pattern (otherwise the case is broken correspondence and the statistical cases decide).
+
+Round 5 additions (+++):
++++ shared  HISTORIES OVER SEVERAL MATRIX OBJECTS: a population gets its crossover probabilities from a map, a second
+            matrix object is derived from it (progeny of any of the 7 mating protocols, select_taxa, a matrix constructed on
+            the same arrays: all of them hand the parents' vrnt_xoprob / vrnt_genpos ARRAY OBJECTS on), then ONE of the two is
+            re-interpolated (once or twice) on another map / with another map function.  Spec, per object: what it stores is
+            the map function of the distances between ITS OWN stored genetic positions, 1/2 at its chromosome starts (decided
+            in Lean: `c02.spec_starts`, and by the model of the history `c02.history`: theorems interp_leaves_others_alone /
+            history_objects_consistent); the object that was not touched must read what it read before;
++++ stat    the same history in front of a statistical case (`disturb`): the progeny are put on a stretched map, the
+            gametes of the PARENTS are tested against the Haldane / Kosambi value of the parents' genetic positions;
++++ embv    genomic models with neutral markers (all-zero effect rows: sparse QTL / LASSO-type models, 1-2 traits), the
+            doubled haploids are read where from_gmod hands them to gmod.gebv (every marker of every progeny against the
+            model of the loop); statistical cases on such models take their statistics at the markers WITH an effect
+            (neutral first markers of chromosomes, neutral markers between two QTL): recombination between two QTL must
+            compose the probabilities of all intervals in between.
 """
 import contextlib
 import json
@@ -420,12 +436,24 @@ class C02(Prop):
             "random statistical cases (1.2 % of the generated cases); gdist1g / gdist1p windows [ast, asp); gaps of 40-2000 Morgans; "
             "protocols on 2-3 chromosomes with 1/2 or hand-assigned values at the starts; a second matrix object at the second "
             "mate() call; draw matrices of one mate() / from_gmod pairwise different. "
-            "Non-trivial = scripted/big/protocol/embv case with >= 1 crossover, >= 2 gametes with different masks and >= 1 observable "
+            "Round 5: histories over TWO matrix objects that hold the same vrnt_xoprob / vrnt_genpos arrays (progeny of each of the "
+            "7 protocols, select_taxa, a constructor call on the parent's arrays), one of them re-interpolated once or twice on a "
+            "scaled or fresh map with Haldane / Kosambi through StandardGeneticMap / ExtendedGeneticMap, both objects judged "
+            "afterwards (3 % of the generated cases + 10 corpus cases); the same history in front of map -> interp_xoprob -> mate() "
+            "statistical cases; from_gmod with genomic models that have neutral markers (all-zero effect rows, 1-2 traits; half of "
+            "the embv cases), doubled haploids read at gmod.gebv, statistical cases on such models with the statistics at the markers "
+            "that carry an effect (neutral first marker of a chromosome, neutral markers between QTL). "
+            "Non-trivial = shared case whose two objects held one array and whose re-interpolation changed the probabilities; "
+            "scripted/big/protocol/embv case with >= 1 crossover, >= 2 gametes with different masks and >= 1 observable "
             "marker, xoprob case with >= 2 chromosomes, any stat case")
     TRUSTED = ["numpy Generator/RandomState.uniform(0,1,shape) delivers independent draws, each uniform on the "
                "grid k/2^53 (the theorem `draws_pushforward` turns exactly this into the Bernoulli product law)",
                "float comparison rnd < xoprob is exact (IEEE comparison of two doubles)",
                "math.exp / numpy.exp / numpy.tanh agree to 1e-12 relative",
+               "that the objects of a `shared` history hold their arrays by reference exactly as Model/RecombShare.lean says "
+               "(derive = same two references, interp_xoprob = two new arrays) is tied to the code by the correspondence run "
+               "of the `shared` cases only (numpy.shares_memory before, contents after); in-place edits by the USER of an "
+               "array two objects share are outside the model (the property is silent on them)",
                "C01's protocol model Mating.mate (tied to the seven mate() by C01's own correspondence run) is what "
                "`c02.proto_full` evaluates on the recorded draws"]
     ASSUMPTIONS = ["crossover probabilities and scripted draws are dyadic rationals, so the float values are exact",
@@ -439,6 +467,13 @@ class C02(Prop):
                    "the deterministic Spec of a scripted / embv / protocol case is applied when the random draws were "
                    "requested in the modelled pattern (one (rows, nvrnt) matrix per meiosis); a tree that consumes randomness "
                    "otherwise is judged by the statistical cases (fixed and generated seeds)",
+                   "shared histories: an object that went through interp_xoprob(map, fn) and was not touched by the user "
+                   "afterwards must store fn(distances of ITS OWN stored positions) and 1/2 at its chromosome starts, whatever "
+                   "happened to other objects since (Spec = the single-object Spec applied to every object of the history)",
+                   "from_gmod with neutral markers: the statistics (segregation, pairwise recombination = composition of all "
+                   "intervals in between, unlinked chromosomes) are demanded at the markers with a non-zero effect only; what a "
+                   "neutral marker of a simulated doubled haploid carries is only compared with the model (correspondence), so a "
+                   "correct shortcut that composes the skipped intervals would not be reported as a violation",
                    "statistical cases: fixed seeds, budget sqrt(2 L v) + 2L/3 with L = ln(2e12) (Bernstein), i.e. "
                    ">= 7.5 sigma; they support the trusted generator contract, they are not what proves C02"]
 
@@ -498,7 +533,40 @@ class C02(Prop):
                     "xoprob": [h, "1/8", "1/4", h, "3/8"], "nprogeny": [2, 3, 1], "nrep": 2})
         out += self._corpus_round3()
         out += self._corpus_round4()
+        out += self._corpus_round5()
         out += self._stat_cases(20000)
+        return out
+
+    def _corpus_round5(self):
+        """one case per class of inputs added in round 5"""
+        chr9 = [1, 1, 1, 1, 1, 2, 2, 2, 2]
+        pa = ["0", "1/16", "1/8", "1/4", "3/8", "0", "1/8", "3/16", "5/16"]
+        pb = [str(Fraction(v) * 4) for v in pa]
+        out = []
+        # two matrix objects on the same arrays, ONE of them re-interpolated: every way of deriving the second object
+        for i, sh in enumerate(self.SHARES):
+            out.append({"kind": "shared", "share": sh, "chr": chr9, "fn1": "haldane", "via1": "standard", "pos1": pa,
+                        "fn2": "kosambi" if i % 3 == 1 else "haldane", "via2": "extended" if i % 2 else "standard",
+                        "pos2": pb, "target": "parent" if i % 4 == 3 else "child", "seed": 500 + i})
+        out.append({"kind": "shared", "share": "mate:TwoWayCross", "chr": [2, 2, 5, 5, 5], "fn1": "kosambi",
+                    "via1": "extended", "pos1": ["1/8", "1/4", "0", "1/2", "5/8"], "fn2": "haldane", "via2": "standard",
+                    "pos2": ["0", "1", "1/4", "1/2", "2"], "target": "child", "seed": 520,
+                    "again": {"fn": "kosambi", "pos": "pos1"}})
+        # the same object interpolated twice on the SAME map with different map functions (positions unchanged)
+        chr8 = [1, 1, 1, 2, 2, 3, 3, 3]
+        pos8 = [0, "1/8", "1/2", 0, "1/4", "1/4", "1/2", 1]
+        out += [{"kind": "xoprob", "fn": "haldane", "via": "interp", "chr": chr8, "pos": pos8, "prime": "fn"},
+                {"kind": "xoprob", "fn": "kosambi", "via": "interp-ext", "chr": chr8, "pos": pos8, "prime": "fn"},
+                {"kind": "xoprob", "fn": "haldane", "via": "interp-gmat", "chr": chr8, "pos": pos8, "prime": "fn"},
+                {"kind": "shared", "share": "mate:FourWayCross", "chr": chr9, "fn1": "haldane", "via1": "standard",
+                 "pos1": pa, "fn2": "haldane", "via2": "standard", "pos2": pb, "target": "child", "seed": 521,
+                 "again": {"fn": "kosambi", "pos": "pos2"}}]
+        # from_gmod with neutral markers in the genomic model (first marker, marker between two QTL, two traits)
+        h, q = "1/2", "1/4"
+        out.append({"kind": "embv", "gen": "Generator", "seed": 51, "ntaxa": 2, "xoprob": [h, q, "1/8", h, "3/8", q],
+                    "nprogeny": [3, 2], "nrep": 2, "ua": [[0], [1], [0], [0], [2], [-1]]})
+        out.append({"kind": "embv", "gen": "RandomState", "seed": 52, "ntaxa": 2, "xoprob": [h, q, "1/8", h, "3/8"],
+                    "nprogeny": 3, "nrep": [1, 2], "ua": [[1, 0], [0, 0], [0, -1], [0, 0], [2, 0]], "homo": [[1], []]})
         return out
 
     def _corpus_round4(self):
@@ -771,6 +839,21 @@ class C02(Prop):
         seed += 1
         out.append({"kind": "statistical-support", "target": "proto:TwoWayCross", "gen": "Generator", "seed": seed,
                     "n": max(n // 2, 4000), "map": dict(m2), "pipeline": "standard", "watch": wm2})
+        # round 5: the progeny of the tested population were put on a stretched map before the meioses of the PARENTS
+        seed = 9500
+        out.append({"kind": "statistical-support", "target": "proto:TwoWayCross", "gen": "Generator", "seed": seed,
+                    "n": max(n // 2, 4000), "map": mp1, "pipeline": "standard", "disturb": "TwoWayCross"})
+        out.append({"kind": "statistical-support", "target": "proto:ThreeWayDHCross", "gen": "RandomState", "seed": seed + 1,
+                    "n": max(n // 2, 4000), "map": mp2, "pipeline": "extended", "disturb": "SelfCross"})
+        # round 5: from_gmod with a sparse QTL model (neutral first marker of a chromosome, neutral markers between QTL)
+        xs = [h, Fraction(1, 20), Fraction(1, 15), Fraction(1, 14), Fraction(1, 8), h, Fraction(1, 11), Fraction(1, 14),
+              Fraction(1, 10)]
+        out.append({"kind": "statistical-support", "target": "embv", "gen": "Generator", "seed": seed + 2, "n": n,
+                    "xoprob": canon.enc(xs), "ua": [[0], [1], [0], ["-3/2"], [2], [0], [1], [0], [-2]]})
+        out.append({"kind": "statistical-support", "target": "embv", "gen": "Generator", "seed": seed + 4, "n": n,
+                    "xoprob": canon.enc(xs), "homo": [2, 5, 7]})
+        out.append({"kind": "statistical-support", "target": "embv", "gen": "RandomState", "seed": seed + 3,
+                    "n": max(n // 2, 4000), "map": mp1, "ua": [[1, 0], [0, 0], [0, 0], [0, 2], [0, 0], [1, 1], [0, 0], [0, 0], [0, -1]]})
         return out
 
     def exhaustive(self, tier):
@@ -787,7 +870,9 @@ class C02(Prop):
         out = []
         for _ in range(n):
             r = rng.random()
-            if r < 0.56:
+            if r < 0.03:
+                out.append(self._gen_shared(rng))
+            elif r < 0.56:
                 out.append(self._gen_scripted(rng))
             elif r < 0.78:
                 out.append(self._gen_protocol(rng))
@@ -800,6 +885,37 @@ class C02(Prop):
             else:
                 out.append(self._gen_xoprob(rng))
         return out
+
+    SHARES = ["mate:" + p for p in PROTOS] + ["select_taxa", "ctor"]
+
+    def _gen_shared(self, rng):
+        """a history over two matrix objects that hold the same vrnt_xoprob / vrnt_genpos arrays"""
+        nchr = rng.choice([1, 2, 2, 3])
+        chr_, pos1, pos2 = [], [], []
+        steps = [1, 2, 4, 8, 16]
+        mode = rng.choice(["scale", "scale", "fresh"])
+        k2 = rng.choice([Fraction(2), Fraction(4), Fraction(1, 2), Fraction(3)])
+        lab = 0
+        for c in range(nchr):
+            lab += rng.choice([1, 1, 3])
+            g1 = Fraction(rng.randrange(0, 4), 16)
+            g2 = g1 * k2 if mode == "scale" else Fraction(rng.randrange(0, 4), 16)
+            for _ in range(rng.choice([2, 3, 4])):
+                chr_.append(lab)
+                pos1.append(g1)
+                pos2.append(g2)
+                d = Fraction(rng.choice(steps), 32)
+                g1 += d
+                g2 += d * k2 if mode == "scale" else Fraction(rng.choice(steps), 32)
+        case = {"kind": "shared", "share": rng.choice(self.SHARES), "chr": chr_,
+                "fn1": rng.choice(["haldane", "haldane", "kosambi"]), "via1": rng.choice(["standard", "extended"]),
+                "pos1": canon.enc(pos1), "fn2": rng.choice(["haldane", "haldane", "kosambi"]),
+                "via2": rng.choice(["standard", "extended"]), "pos2": canon.enc(pos2),
+                "target": rng.choice(["child", "child", "parent"]), "seed": rng.randrange(1 << 30)}
+        if rng.random() < 0.3:
+            # the same object is interpolated once more (on the first map again, other map function)
+            case["again"] = {"fn": rng.choice(["haldane", "kosambi"]), "pos": rng.choice(["pos1", "pos2"])}
+        return case
 
     def _gen_stat(self, rng, tier):
         """a statistical case with random target, layout and seed (the corpus holds the fixed ones): what decides
@@ -839,9 +955,20 @@ class C02(Prop):
                     pos.append(g)
                     g += Fraction(rng.choice([1, 2, 4, 8, 16]), 32)
             case["map"] = {"fn": rng.choice(["haldane", "kosambi"]), "chr": chr_, "pos": [str(v) for v in pos]}
+        if tgt == "embv" and rng.random() < 0.6:
+            mm = len(case["map"]["chr"]) if "map" in case and "chr" in case["map"] else (
+                len(case["xoprob"]) if "xoprob" in case else None)
+            if mm is not None and mm >= 3:
+                ua = [[0] for _ in range(mm)]
+                for j in rng.sample(range(mm), rng.choice([2, 3]) if mm > 3 else 2):
+                    ua[j] = [rng.choice([1, -1, 2])]
+                case["ua"] = ua
+                case["n"] = 3 * n
         if tgt.startswith("proto:"):
             if "map" in case and rng.random() < 0.5:
                 case["pipeline"] = rng.choice(["standard", "extended"])
+                if rng.random() < 0.5:
+                    case["disturb"] = rng.choice(PROTOS)
             p = tgt[6:]
             if p in ("SelfCross", "TwoWayCross", "TwoWayDHCross") and rng.random() < 0.4:
                 ns = rng.choice([1, 2, 3])
@@ -1041,7 +1168,19 @@ class C02(Prop):
                 "nrep": rng.choice([1, 2]) if scalar else [rng.choice([1, 2, 3]) for _ in range(ntaxa)]}
         if rng.random() < 0.5:
             case["homo"] = _gen_homo(rng, ntaxa, m)
+        if rng.random() < 0.5:
+            case["ua"] = self._gen_ua(rng, m)
         return case
+
+    @staticmethod
+    def _gen_ua(rng, m):
+        """marker effects (m, ntrait) of an additive model with neutral markers (all-zero rows): sparse QTL model"""
+        nt = rng.choice([1, 1, 2])
+        ua = [[0] * nt for _ in range(m)]
+        qtl = sorted(rng.sample(range(m), rng.choice([1, 2, 2, 3]) if m > 3 else rng.randrange(0, m + 1)))
+        for j in qtl:
+            ua[j][rng.randrange(nt)] = rng.choice([1, -1, 2, -3])
+        return ua
 
     def _gen_xoprob(self, rng):
         nchr = rng.choice([1, 2, 3, 5, 5, 3, 2, 40, 300] if rng.random() < 0.25 else [1, 2, 3, 5])
@@ -1084,6 +1223,8 @@ class C02(Prop):
                              asp == len(chr_) else asp]
         elif rng.random() < 0.3:
             case["prime"] = True                            # the same objects were queried / filled before
+            if via.startswith("interp") and rng.random() < 0.5:
+                case["prime"] = "fn"                        # ... on the same map with the other map function
         return case
 
     # ------------------------------------------------------------------ implementation
@@ -1359,7 +1500,7 @@ class C02(Prop):
         return labs, ok
 
     def _run_proto(self, proto, gen, seed, ntaxa, xconfig, nmating, nprogeny, nself, xo, chr_=None, homo=None,
-                   ncall=1, xo2=None, edit_mode="assign", pipe=None, chain=None, forder=False):
+                   ncall=1, xo2=None, edit_mode="assign", pipe=None, chain=None, forder=False, disturb=None):
         """-> ([progeny matrix per call], recorder, parents of each progeny row, M, N, [draw-matrix count per call])"""
         mutil, cmate, sgm, hal, kos, dpgm, protos = _mods()
         if gen == "Scripted":
@@ -1381,6 +1522,13 @@ class C02(Prop):
             else:
                 gmap = sgm.StandardGeneticMap(chr_a, phy, gen_a)
             pg.interp_xoprob(gmap, (hal.HaldaneMapFunction if fn == "haldane" else kos.KosambiMapFunction)())
+            if disturb is not None:
+                # a breeding cycle before the one that is observed: progeny are produced from the population (own
+                # protocol object, own generator) and THEY are put on another, stretched map with the other map function
+                q = protos[disturb](rng=numpy.random.default_rng(12345)).mate(
+                    pg, numpy.array([list(range(NPARENT[disturb]))], dtype=int), 1, 2, nself=0)
+                gmap2 = type(gmap)(chr_a, phy, *([phy + 1] if via == "extended" else []), gen_a * 4.0 + 0.125)
+                q.interp_xoprob(gmap2, (kos.KosambiMapFunction if fn == "haldane" else hal.HaldaneMapFunction)())
         else:
             pg = self._pgmat(ntaxa, xo, chr_, homo=homo, forder=forder)
         xc = numpy.array(xconfig, dtype=int).reshape(len(xconfig), NPARENT[proto])
@@ -1445,20 +1593,35 @@ class C02(Prop):
             obs["rnd"] = [self._draw_ints(d) for d in first[-len(labs):]]
         return obs
 
+    @staticmethod
+    def _gmod(m, ua, sink):
+        """additive linear genomic model with marker effects `ua` (default: effect 1 at every marker) that records the
+        progeny matrices from_gmod hands to gebv (the only place where its doubled haploids become visible)"""
+        embv, dalgm = _embv_mods()
+        u = numpy.ones((m, 1)) if ua is None else numpy.array([[_f(v) for v in row] for row in ua], dtype=float).reshape(m, -1)
+        nt = u.shape[1]
+
+        class Rec(dalgm.DenseAdditiveLinearGenomicModel):
+            def gebv(self, gtobj, **kwargs):
+                sink.append(numpy.array(gtobj.mat, copy=True))
+                return super().gebv(gtobj, **kwargs)
+        return Rec(beta=numpy.ones((1, nt)), u_misc=None, u_a=u,
+                   trait=numpy.array(["y%d" % i for i in range(nt)], dtype=object))
+
     def _impl_embv(self, case):
         embv, dalgm = _embv_mods()
         xo = [_f(v) for v in case["xoprob"]]
         m, nt = len(xo), case["ntaxa"]
         pg = self._pgmat(nt, xo, homo=case.get("homo"))
-        gm = dalgm.DenseAdditiveLinearGenomicModel(beta=numpy.array([[1.0]]), u_misc=None, u_a=numpy.ones((m, 1)),
-                                                   trait=numpy.array(["y"], dtype=object))
+        seen = []
+        gm = self._gmod(m, case.get("ua"), seen)
         g = (RecGenerator if case["gen"] == "Generator" else RecRandomState)(case["seed"])
         captured = []
         orig_dh, orig_rng = embv.dense_dh, embv.global_prng
 
         def rec(geno, sel, xoprob, rng, *a, **k):
             out = orig_dh(geno, sel, xoprob, rng, *a, **k)
-            captured.append((numpy.array(sel).copy(), numpy.array(out).copy()))
+            captured.append((numpy.array(sel).copy(), None))
             return out
         embv.dense_dh, embv.global_prng = rec, g
         try:
@@ -1467,10 +1630,11 @@ class C02(Prop):
                                                                        as_arg(case["nrep"]))
         finally:
             embv.dense_dh, embv.global_prng = orig_dh, orig_rng
-        doubled = all(bool((out[0] == out[1]).all()) for _, out in captured)
+        # the doubled haploids are read where they leave the loop: the progeny matrix handed to gmod.gebv (all markers)
+        doubled = all(out.ndim == 3 and out.shape[0] == 2 and bool((out[0] == out[1]).all()) for out in seen)
         return {"calls": g.log, "draws": [self._draw_ints(d) for d in g.draws],
-                "observable": bool(doubled and len(captured) == len(g.draws)), "doubled": bool(doubled),
-                "sels": [s_.tolist() for s_, _ in captured], "dh": [canon.enc(out) for _, out in captured],
+                "observable": bool(doubled and len(seen) == len(g.draws)), "doubled": bool(doubled),
+                "sels": [s_.tolist() for s_, _ in captured], "dh": [canon.enc(out) for out in seen],
                 "shape": list(res.mat.shape)}
 
     def _map_xoprob(self, fn, via, chr_, pos, perm=None, ungrouped=False, prime=False, slice_=None):
@@ -1515,7 +1679,8 @@ class C02(Prop):
         if prime:
             # the matrix already carries crossover probabilities from ANOTHER map function and a stretched map
             gmap2 = type(gmap)(chr_a, phy, *( [phy + 1] if via == "interp-ext" else []), gen * 2.0 + 0.25)
-            pg.interp_xoprob(gmap2, other)
+            # (prime == "fn": the SAME map first with the other map function: positions stay, probabilities must not)
+            pg.interp_xoprob(gmap if prime == "fn" else gmap2, other)
         pg.interp_xoprob(gmap, mf)
         return pg.vrnt_xoprob, pg.vrnt_genpos
 
@@ -1528,6 +1693,99 @@ class C02(Prop):
                 raise
             return {"rejected": canon.exc_tag(e)}
         return {"xoprob": canon.enc(xo), "genpos": canon.enc(gp)}
+
+    def _impl_shared(self, case):
+        """parent <- map 1; child derived from the parent (shares its vrnt arrays); ONE of them <- map 2 (and possibly
+        once more); what both objects store afterwards"""
+        mutil, cmate, sgm, hal, kos, dpgm, protos = _mods()
+        chr_ = case["chr"]
+        m = len(chr_)
+        chr_a = numpy.array(chr_, dtype=int)
+        phy = numpy.arange(1, m + 1)
+
+        def gmap(via, pos):
+            gen_a = numpy.array([_f(v) for v in pos], dtype=float)
+            if via == "extended":
+                import pybrops.popgen.gmap.ExtendedGeneticMap as egm
+                return egm.ExtendedGeneticMap(chr_a.copy(), phy.copy(), phy + 1, gen_a)
+            return sgm.StandardGeneticMap(chr_a.copy(), phy.copy(), gen_a)
+
+        def mapfn(fn):
+            return (hal.HaldaneMapFunction if fn == "haldane" else kos.KosambiMapFunction)()
+        parent = self._pgmat(4, None, chr_, m=m)
+        parent.interp_xoprob(gmap(case["via1"], case["pos1"]), mapfn(case["fn1"]))
+        share = case["share"]
+        if share.startswith("mate:"):
+            pn = share[5:]
+            prot = protos[pn](rng=numpy.random.default_rng(case["seed"]))
+            child = prot.mate(parent, numpy.array([list(range(NPARENT[pn]))], dtype=int), 1, 2, nself=0)
+        elif share == "select_taxa":
+            child = parent.select_taxa([2, 0])
+        else:
+            # a matrix constructed on the arrays of the parent (grouping metadata taken over as well)
+            child = dpgm.DensePhasedGenotypeMatrix(parent.mat.copy(), vrnt_chrgrp=parent.vrnt_chrgrp,
+                                                   vrnt_phypos=parent.vrnt_phypos, vrnt_genpos=parent.vrnt_genpos,
+                                                   vrnt_xoprob=parent.vrnt_xoprob)
+            child.vrnt_chrgrp_name, child.vrnt_chrgrp_stix = parent.vrnt_chrgrp_name, parent.vrnt_chrgrp_stix
+            child.vrnt_chrgrp_spix, child.vrnt_chrgrp_len = parent.vrnt_chrgrp_spix, parent.vrnt_chrgrp_len
+        objs = {"parent": parent, "child": child}
+        aliased = bool(numpy.shares_memory(parent.vrnt_xoprob, child.vrnt_xoprob))
+        before = {k: (numpy.array(o.vrnt_xoprob, dtype=float, copy=True), numpy.array(o.vrnt_genpos, dtype=float, copy=True))
+                  for k, o in objs.items()}
+        tgt = objs[case["target"]]
+        tgt.interp_xoprob(gmap(case["via2"], case["pos2"]), mapfn(case["fn2"]))
+        if "again" in case:
+            tgt.interp_xoprob(gmap(case["via1"], case[case["again"]["pos"]]), mapfn(case["again"]["fn"]))
+        obs = {"aliased_before": aliased}
+        for k, o in objs.items():
+            obs[k] = {"xoprob": canon.enc(numpy.asarray(o.vrnt_xoprob, dtype=float)),
+                      "genpos": canon.enc(numpy.asarray(o.vrnt_genpos, dtype=float)),
+                      "xoprob_before": canon.enc(before[k][0]), "genpos_before": canon.enc(before[k][1])}
+        return obs
+
+    @staticmethod
+    def _shared_last(case):
+        """object -> (map function, positions) of the interpolation it saw last"""
+        first = (case["fn1"], case["pos1"])
+        last = (case["again"]["fn"], case[case["again"]["pos"]]) if "again" in case else (case["fn2"], case["pos2"])
+        return {"parent": last if case["target"] == "parent" else first,
+                "child": last if case["target"] == "child" else first}
+
+    def _judge_shared(self, case, obs, ans):
+        last = self._shared_last(case)
+        other = "parent" if case["target"] == "child" else "child"
+        corr, spec, why, k = True, True, [], 0
+        for name in ("parent", "child"):
+            fn, pos = last[name]
+            o = obs[name]
+            # the Spec of the single-object case on what THIS object stores: map function of the distances between its
+            # own stored genetic positions, 1/2 at its chromosome starts
+            v = self._judge_xoprob({"kind": "xoprob", "fn": fn, "via": "interp", "chr": case["chr"], "pos": o["genpos"]},
+                                   {"xoprob": o["xoprob"], "genpos": o["genpos"]}, ans[k:k + 2])
+            k += 2
+            gp_ok = canon.close_enc(o["genpos"], pos, rel=1e-12, abs_=1e-12)
+            corr = corr and v["corr"] and gp_ok
+            if not v["spec"]:
+                spec = False
+                why.append(f"{name} (map function {fn}, stored positions {o['genpos']}): " + v["detail"].split("] ", 1)[-1][-300:])
+        hist = ans[k]
+        # the model of the history (array references): the object that was not touched reads the arrays of the first
+        # interpolation, the other one those of its last
+        nlast = 2 if "again" in case else 1
+        corr = corr and hist[other] == {"gp_from": 0, "xo_from": 0} and \
+            hist[case["target"]] == {"gp_from": nlast, "xo_from": nlast}
+        untouched = obs[other]["xoprob"] == obs[other]["xoprob_before"] and \
+            obs[other]["genpos"] == obs[other]["genpos_before"]
+        if not untouched:
+            corr = False
+        f1 = [Fraction(v) for v in canon.dec(obs[case["target"]]["xoprob_before"])]
+        f2 = [Fraction(v) for v in canon.dec(obs[case["target"]]["xoprob"])]
+        return {"corr": bool(corr), "spec": bool(spec), "nontrivial": bool(obs["aliased_before"] and f1 != f2),
+                "detail": f"shared[{case['share']}, {case['target']} re-interpolated "
+                          f"{case['fn1']}/{case['via1']} -> {case['fn2']}/{case['via2']}"
+                          f"{' -> ' + case['again']['fn'] + ' on ' + case['again']['pos'] if 'again' in case else ''}] "
+                          f"arrays_shared_before={obs['aliased_before']} {other}_reads_what_it_read_before={untouched} "
+                          + ("; ".join(why) if why else "both objects: stored probabilities = map function of own stored distances")}
 
     @staticmethod
     def _stat_map(case):
@@ -1574,24 +1832,27 @@ class C02(Prop):
             if homo:
                 het = [j not in set(homo) for j in range(m)]
             pg = self._pgmat(1, xo, chr_, homo=[homo] if homo else None)
-            gm = dalgm.DenseAdditiveLinearGenomicModel(beta=numpy.array([[1.0]]), u_misc=None, u_a=numpy.ones((m, 1)),
-                                                       trait=numpy.array(["y"], dtype=object))
-            g = (RecGenerator if case["gen"] == "Generator" else RecRandomState)(case["seed"])
+            ua = case.get("ua")
+            if ua is not None:
+                # a model with neutral markers: the statistics are taken at the markers that carry an effect (what a
+                # neutral marker of a doubled haploid looks like cannot change anything from_gmod computes)
+                het = [het[j] and any(Fraction(v) != 0 for v in ua[j]) for j in range(m)]
             captured = []
-            orig_dh, orig_rng = embv.dense_dh, embv.global_prng
-
-            def rec(*a, **k):
-                out = orig_dh(*a, **k)
-                captured.append(numpy.array(out).copy())
-                return out
-            embv.dense_dh, embv.global_prng = rec, g
+            gm = self._gmod(m, ua, captured)
+            g = (RecGenerator if case["gen"] == "Generator" else RecRandomState)(case["seed"])
+            orig_rng = embv.global_prng
+            embv.global_prng = g
             try:
                 embv.DenseExpectedMaximumBreedingValueMatrix.from_gmod(gm, pg, 40, max(n // 40, 1))
             finally:
-                embv.dense_dh, embv.global_prng = orig_dh, orig_rng
+                embv.global_prng = orig_rng
+            hcol = numpy.array(het, dtype=bool)
             for out in captured:
+                if out.ndim != 3 or out.shape[0] != 2 or out.shape[2] != m:
+                    return {"observable": False}
                 t, p = _decode(out[0])
-                if not ((t == 0).all() and (out[0] == out[1]).all()):
+                # (the doubled haploid of taxon 0: at every marker with an effect one of its two alleles, both copies equal)
+                if not ((t == 0)[:, hcol].all() and (out[0] == out[1])[:, hcol].all()):
                     return {"observable": False}
                 L.append(p.astype(bool))
             if not L:
@@ -1611,7 +1872,8 @@ class C02(Prop):
                 # pedigree of several generations: n independent lines, one plant observed per line; the copy of
                 # the founder / of the F1 carried by each cell is read from the allele code
                 outs, g, rows, M, N, _ = self._run_proto(proto, case["gen"], case["seed"], 4, [list(range(np_))],
-                                                         n, 1, nself, xo, chr_, pipe=pipe)
+                                                         n, 1, nself, xo, chr_, pipe=pipe,
+                                                         disturb=case.get("disturb") if pipe else None)
                 both = []
                 ok = True
                 for c in range(2):
@@ -1627,7 +1889,8 @@ class C02(Prop):
                     cross01 = both        # the two copies of ONE plant (law of `crossProbN`)
             else:
                 outs, g, rows, M, N, _ = self._run_proto(proto, case["gen"], case["seed"], 4, [list(range(np_))],
-                                                         1, n, nself, xo, chr_, pipe=pipe)
+                                                         1, n, nself, xo, chr_, pipe=pipe,
+                                                         disturb=case.get("disturb") if pipe else None)
                 if nself == 0:
                     labs, ok = self._labels(proto, rows, outs[0].mat)
                 else:
@@ -1787,6 +2050,16 @@ class C02(Prop):
                         case["chr"][case["slice"][0]] == case["chr"][case["slice"][0] - 1]:
                     xs[0] = "1/2"      # a window that opens inside a chromosome: the property is silent on its first cell
                 reqs.append({"op": "c02.spec_starts", "chr": chr_, "xoprob": xs})
+            return reqs
+        if k == "shared":
+            reqs = []
+            for name in ("parent", "child"):
+                o = obs[name]
+                xs = [None if isinstance(canon.dec(x), str) else x for x in o["xoprob"]]
+                reqs += [{"op": "c02.gdist", "chr": case["chr"], "pos": o["genpos"]},
+                         {"op": "c02.spec_starts", "chr": case["chr"], "xoprob": xs}]
+            reqs.append({"op": "c02.history", "share": True, "target": case["target"],
+                         "ninterp": 2 if "again" in case else 1})
             return reqs
         if k == "stat":
             if not obs.get("observable"):
@@ -2127,6 +2400,8 @@ class C02(Prop):
                 "detail": f"stat[{case['target']}{' nself=' + str(case['nself']) if case.get('nself') else ''}{tag}"
                           f"{' dense panel' if ('dense' in case or 'nchr' in case.get('map', {})) else ''}"
                           f"{' map->interp_xoprob->mate' if case.get('pipeline') else ''}"
+                          f"{' after its ' + case['disturb'] + ' progeny were put on another map' if case.get('disturb') else ''}"
+                          f"{' sparse QTL model, statistics at the markers with an effect' if case.get('ua') else ''}"
                           f"{' partly-inbred' if case.get('homo') else ''},{case['gen']},seed={case['seed']}] n={n} "
                           f"markers={len(xo)} watched={k} statistics={nstat} worst |dev|/budget={worst:.3f} "
                           f"enum_ok={pr['enum_ok']} haldane_model_ok={hal_ok} "
@@ -2298,6 +2573,20 @@ class C02(Prop):
                 elif isinstance(case[f], int) and case[f] > 1:
                     c = dict(case)
                     c[f] = 1
+                    yield c
+        elif k == "shared":
+            if "again" in case:
+                c = dict(case)
+                del c["again"]
+                yield c
+            labels = sorted(set(case["chr"]))
+            if len(labels) > 1:
+                for lab in labels:            # drop a whole chromosome
+                    keep = [i for i, v in enumerate(case["chr"]) if v != lab]
+                    c = dict(case)
+                    c["chr"] = [case["chr"][i] for i in keep]
+                    c["pos1"] = [case["pos1"][i] for i in keep]
+                    c["pos2"] = [case["pos2"][i] for i in keep]
                     yield c
         elif k == "stat":
             if case["n"] > 4000:
@@ -2651,6 +2940,63 @@ class C02(Prop):
                 return memo[key]
             return f
 
+        def interp_in_place(self, gmap, gmapfn, **kwargs):
+            # no reallocation: an existing probability vector of the right length is refreshed in place
+            self.vrnt_genpos = gmap.interp_genpos(self._vrnt_chrgrp, self._vrnt_phypos)
+            xo = gmapfn.rprob1g(gmap, self._vrnt_chrgrp, self._vrnt_genpos)
+            if self._vrnt_xoprob is not None and self._vrnt_xoprob.shape == xo.shape:
+                self._vrnt_xoprob[:] = xo
+            else:
+                self.vrnt_xoprob = xo
+
+        def interp_positions_in_place(self, gmap, gmapfn, **kwargs):
+            # the genetic positions are refreshed in place, the probabilities are assigned
+            gp = gmap.interp_genpos(self._vrnt_chrgrp, self._vrnt_phypos)
+            if self._vrnt_genpos is not None and self._vrnt_genpos.shape == gp.shape:
+                self._vrnt_genpos[:] = gp
+            else:
+                self.vrnt_genpos = gp
+            self.vrnt_xoprob = gmapfn.rprob1g(gmap, self._vrnt_chrgrp, self._vrnt_genpos)
+
+        def interp_skip_when_positions_unchanged(orig):
+            def f(self, gmap, gmapfn, **kwargs):
+                old_gp, old_xo = self._vrnt_genpos, self._vrnt_xoprob
+                orig(self, gmap, gmapfn, **kwargs)
+                if old_gp is not None and old_xo is not None and numpy.array_equal(old_gp, self._vrnt_genpos):
+                    self.vrnt_xoprob = old_xo          # "positions unchanged: probabilities on record still valid"
+            return f
+
+        def embv_dh_only_heterozygous_markers(geno, sel, xoprob, rng):
+            # markers at which the parent is homozygous cannot segregate: they are left out of the meiosis
+            sel = numpy.asarray(sel)
+            if len(sel) == 0:
+                return cmate.dense_dh(geno, sel, xoprob, rng)
+            hm = geno[0, sel[0], :] != geno[1, sel[0], :]
+            if hm.all() or not hm.any() or not (sel == sel[0]).all():
+                return cmate.dense_dh(geno, sel, xoprob, rng)
+            mat = numpy.stack([geno[0, sel, :], geno[0, sel, :]])
+            mat[:, :, hm] = cmate.dense_dh(geno[:, :, hm], sel, xoprob[hm], rng)
+            return mat
+
+        def embv_only_markers_with_effect(cls_orig):
+            """from_gmod sends only the markers with a non-zero effect through the meiosis (xoprob subset, not composed)"""
+            def from_gmod(cls, gmod, pgmat, nprogeny, nrep, **kwargs):
+                vmask = numpy.any(numpy.asarray(gmod.u_a) != 0.0, axis=1)
+                if vmask.all():
+                    return cls_orig(gmod, pgmat, nprogeny, nrep, **kwargs)
+                inner = embv_mod.dense_dh
+
+                def dh(geno, sel, xoprob, rng):
+                    mat = numpy.stack([geno[0, sel, :], geno[0, sel, :]])
+                    mat[:, :, vmask] = inner(geno[:, :, vmask], sel, xoprob[vmask], rng)
+                    return mat
+                embv_mod.dense_dh = dh
+                try:
+                    return cls_orig(gmod, pgmat, nprogeny, nrep, **kwargs)
+                finally:
+                    embv_mod.dense_dh = inner
+            return classmethod(from_gmod)
+
         def dh_fresh_generator(geno, sel, xoprob, rng):
             return cmate.dense_dh(geno, sel, xoprob, numpy.random.default_rng(1))
 
@@ -2677,7 +3023,7 @@ class C02(Prop):
                 (k == "statistical-support" and (c["target"].startswith("dense_") or c["target"] == "embv"))
 
         def reach_map(c):
-            return c["kind"] == "xoprob" or (c["kind"] == "statistical-support" and "map" in c)
+            return c["kind"] in ("xoprob", "shared") or (c["kind"] == "statistical-support" and "map" in c)
 
         def reach_proto(pn):
             return lambda c: (c["kind"] == "protocol" and c["proto"] == pn) or \
@@ -2777,6 +3123,18 @@ class C02(Prop):
              lambda: patch(hal.HaldaneMapFunction, "rprob1g", rprob1g_memo(hal.HaldaneMapFunction.rprob1g))),
             ("dense_genotype_matrix_interp_xoprob_without_map_function",
              lambda: patch(dgm.DenseGenotypeMatrix, "interp_xoprob", interp_skip_mapfn)),
+            # round 5
+            ("interp_xoprob_refreshes_a_shared_probability_array_in_place",
+             lambda: patch(dpgm.DensePhasedGenotypeMatrix, "interp_xoprob", interp_in_place)),
+            ("interp_xoprob_refreshes_a_shared_position_array_in_place",
+             lambda: patch(dpgm.DensePhasedGenotypeMatrix, "interp_xoprob", interp_positions_in_place)),
+            ("interp_xoprob_keeps_probabilities_when_positions_are_unchanged",
+             lambda: patch(dpgm.DensePhasedGenotypeMatrix, "interp_xoprob",
+                           interp_skip_when_positions_unchanged(dpgm.DensePhasedGenotypeMatrix.interp_xoprob))),
+            ("embv_meiosis_only_at_heterozygous_markers", lambda: patch(embv_mod, "dense_dh", embv_dh_only_heterozygous_markers)),
+            ("embv_meiosis_only_at_markers_with_an_effect",
+             lambda: patch(embv_mod.DenseExpectedMaximumBreedingValueMatrix, "from_gmod",
+                           embv_only_markers_with_effect(embv_mod.DenseExpectedMaximumBreedingValueMatrix.from_gmod))),
         ]
         return [(nm, (lambda nm=nm, ctx=ctx: self._scoped(scope_of(nm), ctx()))) for nm, ctx in r3 + [
             ("mat_meiosis_float32_draws", lambda: patch(mutil, "mat_meiosis", meiosis_variant(float32=True))),
